@@ -340,6 +340,10 @@ def step_correspondence(ctx, cfg):
     # classify spec failures: known finding or violation
     for prof, l in specs:
         req = l.split(' => ')[0]
+        # a verdict that states ANOTHER property's clause (e.g. C12's "results that do not fit yield Err" on requests replayed by C11 / C17) is not this property's business
+        if cfg.get('spec_ignore') and re.search(cfg['spec_ignore'], l):
+            ctx.other_property_verdicts = getattr(ctx, 'other_property_verdicts', 0) + 1
+            continue
         hit = None
         for k in known:
             if finding_matches(k, ctx.prop, req, prof):
@@ -407,6 +411,7 @@ def write_evidence(ctx, cfg, violations):
             'answers_compared_with_model_only_no_documented_answer': st.get('nospec', 0),
             'model_vs_impl_disagreements': st.get('diff', 0),
             'spec_vs_impl_failures': st.get('spec', 0),
+            'of_which_verdicts_of_another_property_clause_ignored_here': getattr(ctx, 'other_property_verdicts', 0),
             'known_findings_hit': {k: v[1] for k, v in ctx.known_hits.items()},
             'search_oracle_mpmath': getattr(ctx, 'oracle', None),
             'broken_obligations': ctx.broken,
